@@ -6,24 +6,27 @@ import (
 	"go/token"
 	"go/types"
 	"math/big"
+	"os"
+	"path/filepath"
 	"sort"
 	"strings"
+	"time"
 
 	"golang.org/x/tools/go/ssa"
 )
 
 // Obligation is one verification condition: decls + pc |- goal.
 type Obligation struct {
-	Name   string
-	Func   string
-	Label  string
-	Kind   string // post | pre | nopanic | inv-entry | inv-preserve | frame | lemma | cover | guard
-	Decls  []string
-	PC     []T
-	Goal   T
-	Notes  []string
-	Cover  bool // expected sat
-	Src    string
+	Name    string
+	Func    string
+	Label   string
+	Kind    string // post | pre | nopanic | inv-entry | inv-preserve | frame | lemma | cover | guard
+	Decls   []string
+	PC      []T
+	Goal    T
+	Notes   []string
+	Cover   bool // expected sat
+	Src     string
 	Bounded bool
 }
 
@@ -35,36 +38,38 @@ func bail(format string, a ...interface{}) { panic(unsupported{fmt.Sprintf(forma
 
 // frame is the activation of one function body being executed (top-level or inlined).
 type frame struct {
-	ex       *Exec
-	fn       *ssa.Function
-	depth    int
-	top      *topCtx
-	loops    map[*ssa.BasicBlock]int // loop header -> ordinal
-	loopBody map[*ssa.BasicBlock]map[*ssa.BasicBlock]bool
-	ret      func(st *PState, results []Val, site int)
-	pan      func(st *PState, why string)
-	defers   map[*PState][]*ssa.Defer
-	contract *Contract // contract whose loop invariants apply (the function's own)
-	params   map[string]Val
-	stack    []string
+	ex         *Exec
+	fn         *ssa.Function
+	depth      int
+	top        *topCtx
+	loops      map[*ssa.BasicBlock]int // loop header -> ordinal
+	loopBody   map[*ssa.BasicBlock]map[*ssa.BasicBlock]bool
+	ret        func(st *PState, results []Val, site int)
+	pan        func(st *PState, why string)
+	defers     map[*PState][]*ssa.Defer
+	contract   *Contract // contract whose loop invariants apply (the function's own)
+	params     map[string]Val
+	stack      []string
+	curSSAArgs []ssa.Value
 }
 
 // topCtx is shared by all frames of one top-level function verification.
 type topCtx struct {
-	fn        *ssa.Function
-	contract  *Contract
-	paths     int
-	capHit    bool
-	obls      []*Obligation
-	nopanic   string // label for nopanic obligations ("" = off)
-	oblCount  map[string]int
-	entry     *PState
-	entryVars map[string]Val
-	bounded   bool
-	inlined   map[string]bool
-	havocs    map[string]bool
-	notes     map[string]bool
+	fn         *ssa.Function
+	contract   *Contract
+	paths      int
+	capHit     bool
+	obls       []*Obligation
+	nopanic    string // label for nopanic obligations ("" = off)
+	oblCount   map[string]int
+	entry      *PState
+	entryVars  map[string]Val
+	bounded    bool
+	inlined    map[string]bool
+	havocs     map[string]bool
+	notes      map[string]bool
 	guardCalls []guardSpec
+	pruneN     int
 }
 
 func (tc *topCtx) addObl(o *Obligation) {
@@ -226,9 +231,13 @@ func (fr *frame) runInstrs(st *PState, b, pred *ssa.BasicBlock, visits map[*ssa.
 			}
 			st2 := st.Clone()
 			st.Assume(c)
-			fr.runBlock(st, tb, b, visits)
+			if !fr.infeasible(st) {
+				fr.runBlock(st, tb, b, visits)
+			}
 			st2.Assume(Not(c))
-			fr.runBlock(st2, fb, b, visits)
+			if !fr.infeasible(st2) {
+				fr.runBlock(st2, fb, b, visits)
+			}
 			return
 		case *ssa.Jump:
 			fr.runBlock(st, b.Succs[0], b, visits)
@@ -299,9 +308,13 @@ func (fr *frame) resume(st *PState, b *ssa.BasicBlock, from int, visits map[*ssa
 			}
 			st2 := st.Clone()
 			st.Assume(c)
-			fr.runBlock(st, tb, b, visits)
+			if !fr.infeasible(st) {
+				fr.runBlock(st, tb, b, visits)
+			}
 			st2.Assume(Not(c))
-			fr.runBlock(st2, fb, b, visits)
+			if !fr.infeasible(st2) {
+				fr.runBlock(st2, fb, b, visits)
+			}
 			return
 		case *ssa.Jump:
 			fr.runBlock(st, b.Succs[0], b, visits)
@@ -461,6 +474,11 @@ func (ex *Exec) ptrTerm(st *PState, p *PtrVal) T {
 			bail("interior pointer into local escapes")
 		}
 		c := st.cells[p.Cell]
+		if isNamed(p.Root, "math/big", "Int") {
+			if t, ok := c.(T); ok && t.Sort == SIntV {
+				return WithGo(t, types.NewPointer(p.Root)) // *big.Int has value semantics in the model
+			}
+		}
 		if f, ok := c.(*fwdCell); ok {
 			return WithGo(f.Ref, types.NewPointer(p.Root))
 		}
@@ -751,6 +769,12 @@ func (fr *frame) step(st *PState, ins ssa.Instruction) {
 		return
 	case *ssa.Alloc:
 		et := ins.Type().(*types.Pointer).Elem()
+		if isNamed(et, "math/big", "Int") {
+			// new(big.Int): value semantics, the cell holds the IntV (non-nil, 0)
+			id := st.NewCell(T{S: "(mkIntV false 0)", Sort: SIntV, Go: types.NewPointer(et)})
+			st.env[ins] = &PtrVal{Kind: PLocal, Cell: id, Root: et}
+			return
+		}
 		id := st.NewCell(ex.ZeroOf(et))
 		st.env[ins] = &PtrVal{Kind: PLocal, Cell: id, Root: et}
 	case *ssa.Store:
@@ -969,7 +993,7 @@ func (fr *frame) binop(st *PState, ins *ssa.BinOp) Val {
 	}
 	x, y := fr.term(st, ins.X), fr.term(st, ins.Y)
 	if x.Sort == SBytes && ins.Op == token.ADD {
-		return WithGo(App(SBytes, "cat", x, y), ins.Type())
+		return WithGo(Cat(x, y), ins.Type())
 	}
 	if x.Sort == SBytes {
 		// string ordering: uninterpreted
@@ -1167,4 +1191,22 @@ func (fr *frame) loadFacts(st *PState, v T, t types.Type) {
 	if b, ok := t.Underlying().(*types.Basic); ok && b.Info()&types.IsString != 0 && len(v.S) < 400 {
 		st.Assume(Not(Eq(v, bnilT)))
 	}
+}
+
+// infeasible asks the solver whether the path condition is unsatisfiable (only for contracts with
+// `flag prune`, where exploring dead branches would explode): unsat -> the path is abandoned.
+func (fr *frame) infeasible(st *PState) bool {
+	if st.dead {
+		return true
+	}
+	if fr.top.contract == nil || fr.top.contract.Flags["prune"] == "" {
+		return false
+	}
+	o := &Obligation{Name: "prune", Kind: "prune", Decls: st.decls, PC: st.pc, Goal: Bool(false), Cover: true}
+	fr.top.pruneN++
+	file := filepath.Join(os.TempDir(), fmt.Sprintf("exovc_prune_%d_%d.smt2", os.Getpid(), fr.top.pruneN))
+	os.WriteFile(file, []byte(fr.ex.SMTText(o, false)), 0o644)
+	defer os.Remove(file)
+	status, _, _ := runSolver(Solvers[0], file, 2*time.Second)
+	return status == "unsat"
 }
